@@ -1504,7 +1504,8 @@ def reproject_crs_part(R: Run, mods):
         src = srcs[scrs]
         r = abs(src.resolution.x) * [1, 2, 0.5][(i // 3) % 3]
         resolution = [_ABSENT, "auto", "same", "fit", r, resxy_(r, -r)][ri]
-        near_fast_path = ri <= 2 and sh in (_ABSENT, None)
+        # next to the identity fast path: own CRS, resolution absent / auto / same, and either no shape or the default anchor
+        near_fast_path = ri <= 2 and (sh in (_ABSENT, None) or a in (_ABSENT, "default"))
         if not near_fast_path and R.quick and (i + R.seed) % 8:
             continue
         kw, gtoks = grid_kw_of(c11, c11mods, {"tight": t, "anchor": a, "resolution": resolution, "shape": sh})
